@@ -84,6 +84,11 @@ def run(ctx):
                 return False
             ok = plus_one(bound)
             detail = sym_str(bound)[:90]
+        # every push is counted, whatever the capacity: the claim lies on every path through push (the reported sample rate is
+        # yielded / pushed — a zero-capacity reservoir that stops counting reports 1.0 for values it never kept)
+        if len(claim) == 1:
+            uncounted = [r for r in b.return_blocks() if r in b.reachable(0, cut={claim[0][0].bb})]
+            chk.ob("C16.b", f"{push.path} [every push counted]", not uncounted, "count.fetch_add(1) on every path through push" if not uncounted else "a push can return without being counted (an early return ahead of count.fetch_add): the sample rate reported by the next drain is not yielded / pushed", claim[0][0].loc(), nontrivial=False)
         chk.ob("C16.a", f"{push.path} [RNG bound]", ok, f"replacement index drawn from 0..({detail}) = 0..=i" if ok else f"the exclusive bound handed to the RNG is `{detail}`: Algorithm R needs (pre-increment count) + 1 — with the count itself position i is kept with k/i instead of k/(i+1), and a zero-capacity reservoir samples the empty range 0..0 and panics", fr[0].loc() if fr else push.loc())
         # ---------------- C16.b fill / replace
         stores = [o for o in atomic_ops(push) if o[1] == "store"]
